@@ -570,6 +570,9 @@ class Interp:
         sp = self.registry.attr_binding(clsname, name)
         if sp is not None:
             return sp(cx, obj)
+        mb = self.registry.method_binding(clsname, name)
+        if mb is not None:
+            return lambda cx2, *a, **k: mb(cx2, obj, *a, **k)
         home = self.class_modinfo(clsname)
         if home is not None:
             mi, real_cls = home
